@@ -42,6 +42,24 @@ ChainAst(S) == IF Cardinality(S) = 1 THEN AtomAst(CHOOSE a \in S : TRUE)
                ELSE LET a == CHOOSE x \in S : TRUE IN Bin("and_b", AtomAst(a), ChainAst(S \ {a}))
 PolWorlds(P, ctx) == WorldsOfCtx(ChainAst(PAtoms(P)), ctx)
 
+\* a policy of many atoms: its worlds are not enumerated (2^17 and more); typing, sanity, re-parsing
+\* and the resource limits are judged, the last on real spends produced by the library's satisfier
+IsWide(P) == Cardinality(PAtoms(P)) >= 9
+
+\* resource limits of the target: the script as the specification encodes it, and every spend the
+\* harness obtained (all keys, each key withheld in turn)
+JudgeLimits(ev, j, o) ==
+  LET ctx == o.ctx IN
+  /\ (ByteLen(Encode(o.ast, ctx)) <= MaxStdScriptBytes(ctx)
+      \/ Report("C08", "output_script_exceeds_size_limit_of_target", ev, j, <<o.kind, ByteLen(Encode(o.ast, ctx))>>))
+  /\ \A q \in 1..Len(o.sats) :
+       LET s == o.sats[q] IN
+       /\ (s.r # "panic" \/ Report("C11", "satisfier_panic_on_compiled_output", ev, j, o.kind))
+       /\ (ctx # "legacy" \/ s.ssig_sat_bytes <= MaxStdScriptSigBytes
+           \/ Report("C08", "output_has_spend_beyond_scriptsig_limit", ev, j, <<o.kind, s.drop, s.ssig_sat_bytes>>))
+       /\ (ctx # "segwitv0" \/ s.wit_items <= MaxStdWitnessItems
+           \/ Report("C08", "output_has_spend_beyond_witness_item_limit", ev, j, <<o.kind, s.drop, s.wit_items>>))
+
 JudgeMs(ev, j, o) ==
   LET ctx == o.ctx  m == o.ast  P == ev.pol IN
   \A t \in {TypeOf(m, ctx)} :
@@ -52,7 +70,8 @@ JudgeMs(ev, j, o) ==
       /\ ("m" \in t.fl \/ Report("C08", "output_malleable", ev, j, o.kind))
       /\ (ObeysSane(m, t, ctx) \/ Report("C08", "output_violates_context_sanity", ev, j, o.kind))
       /\ (o.reparse_sane \/ Report("C08", "output_does_not_reparse_under_default_rules", ev, j, o.kind))
-      /\ ((\A w \in PolWorlds(P, ctx) : Spendable(m, w, ctx) = PEval(P, w))
+      /\ JudgeLimits(ev, j, o)
+      /\ (IsWide(P) \/ (\A w \in PolWorlds(P, ctx) : Spendable(m, w, ctx) = PEval(P, w))
           \/ Report("C08", "compilation_changed_spending_semantics", ev, j, o.kind)))
 
 JudgeTr(ev, j, o) ==
@@ -63,7 +82,7 @@ JudgeTr(ev, j, o) ==
        /\ ((t.ok /\ t.b = "B") \/ Report("C08", "leaf_not_B", ev, j, <<o.kind, q>>))
        /\ (~t.ok \/ ("s" \in t.fl /\ "m" \in t.fl) \/ Report("C08", "leaf_not_signed_nonmalleable", ev, j, <<o.kind, q>>))
        /\ (~t.ok \/ ObeysSane(o.leaves[q].ast, t, "tap") \/ Report("C08", "leaf_violates_context_sanity", ev, j, <<o.kind, q>>))
-  /\ ((\A w \in PolWorlds(P, "tap") :
+  /\ (IsWide(P) \/ (\A w \in PolWorlds(P, "tap") :
          ((o.ik \in w.sigs) \/ (\E q \in 1..Len(o.leaves) : Spendable(o.leaves[q].ast, w, "tap"))) = PEval(P, w))
       \/ Report("C08", "compilation_changed_spending_semantics", ev, j, o.kind))
 
